@@ -300,8 +300,8 @@ func TestPropLayouts(t *testing.T) {
 	}
 	n, acc := 0, 0
 	oneline.EachLayoutX(shard, shards, gaps, func(l oneline.Layout, varied, src string) {
-		if !oneline.SameTokens(l, varied) {
-			return // two words written without a blank between them: another program
+		if l.Parts || !oneline.SameTokens(l, varied) {
+			return // two words written without a blank between them, or a layout that makes another program
 		}
 		n++
 		recCompile.Eval(1)
